@@ -14,6 +14,7 @@ pub static DEF: PropDef = PropDef {
     assumptions: &["the harness runs as root (chmod keeps all twelve bits, chown to ids without passwd entries works)", "who-less symbolic clauses (=rx, +x) mean 'a' - the process umask is not consulted (POSIX find / GNU find)"],
     run,
     replay,
+    fuzz: None,
 };
 
 #[derive(Serialize, Deserialize, Debug, Clone)]
